@@ -16,7 +16,7 @@ for p in C03 C05 C07 C11 C12 C13 C14 C15 C17 C20; do
   done
   lines=$(wc -l < $T/$p.1.h)
   echo "selftest $p: $lines run indices x 4 executions, hashes identical: $([ $fail = 0 ] && echo yes || echo NO)"
-  python3 - "$T/ev/$p.json" <<'PY' || fail=1
+  $(command -v python3-vt || echo python3) - "$T/ev/$p.json" <<'PY' || fail=1
 import json,sys
 try:
     import jsonschema
